@@ -37,7 +37,7 @@ def split_files(g, ir, rnd):
             return ref_spelling(t["full"], ns)
         tns = t["ns"]
         simple = t["full"].rsplit(".", 1)[-1]
-        d = {"type": k}
+        d = {"type": "error" if t.get("error") else k}
         if tns and rnd.random() < 0.5:
             d["name"] = t["full"]
         else:
